@@ -222,8 +222,8 @@ func cmdReplay(args []string) {
 						}
 					}
 					rep.Mismatch(vh.Mismatch{
-						Case: map[string]interface{}{"world": v.W, "mix": v.Mix, "goroutine": s.g + 1, "request": rq.Text, "copies": *mult, "aspect": "isolation"},
-						What: fmt.Sprintf("response of %q differs from the one it gets alone (prescribed outcome %s): %s", rq.Text, exp, why),
+						Case:     map[string]interface{}{"world": v.W, "mix": v.Mix, "goroutine": s.g + 1, "request": rq.Text, "copies": *mult, "aspect": "isolation"},
+						What:     fmt.Sprintf("response of %q differs from the one it gets alone (prescribed outcome %s): %s", rq.Text, exp, why),
 						Expected: alone[v.W+"|"+name], Actual: lb.CanonResponse(res), Known: known})
 				}
 			}
@@ -460,8 +460,8 @@ func cmdStress(args []string) {
 					}
 				}
 				rep.Mismatch(vh.Mismatch{
-					Case: map[string]interface{}{"root": where, "request": rq.Text, "op": rq.Op, "vars": rq.Vars, "goroutines": n, "aspect": "isolation"},
-					What: fmt.Sprintf("with %d concurrent requests on a cold root the response of %q differs from the one it gets alone", n, rq.Text),
+					Case:     map[string]interface{}{"root": where, "request": rq.Text, "op": rq.Op, "vars": rq.Vars, "goroutines": n, "aspect": "isolation"},
+					What:     fmt.Sprintf("with %d concurrent requests on a cold root the response of %q differs from the one it gets alone", n, rq.Text),
 					Expected: want, Actual: got, Known: known})
 			}
 			if it == 1 && n == counts[0] {
@@ -501,6 +501,8 @@ func main() {
 		cmdStress(os.Args[2:])
 	case "trace":
 		cmdTrace(os.Args[2:])
+	case "rendezvous":
+		cmdRendezvous(os.Args[2:])
 	default:
 		vh.Die("unknown subcommand %s", os.Args[1])
 	}
